@@ -2,7 +2,7 @@
 import numpy as np
 import pandas as pd
 
-from ..abstract import to_rat
+from ..abstract import EMB, to_rat
 from ..env import JUNK, NULL
 from ..util import call
 from . import api
@@ -29,6 +29,8 @@ def _build(case):
     encs = [api.key_encoder(k) for k in case["kenc"]]
     cols = [e.enc([r[j] for r in case["keys"]]) for j, e in enumerate(encs)]
     vals = np.array([np.nan if v == NULL else float(v) for v in case["vals"]])
+    if case.get("emb"):
+        vals = EMB[case["emb"]].enc(case["vals"])       # integers at 2^53: a detour through float64 loses the value
     mask = None if all(case["sel"]) and not case.get("force_mask") else np.array(case["sel"], dtype=bool)
     return encs, cols, vals, mask
 
@@ -52,7 +54,14 @@ def run_margins(case):
     idx = out.index
     tups = idx.tolist() if isinstance(idx, pd.MultiIndex) else [(x,) for x in idx.tolist()]
     tr["labels"] = [_dec_label(encs, t) for t in tups]
-    tr["res"] = [_val(op, x) for x in np.asarray(out, dtype=float).tolist()]
+    if case.get("emb") and op in ("sum", "min", "max"):
+        emb = EMB[case["emb"]]
+        arr = out.to_numpy()
+        tr["res"] = emb.dec_sum(arr)[1] if op == "sum" else emb.dec_arr(arr)
+        tr["cfg"]["emb"] = case["emb"]
+        tr["cfg"]["rdtype"] = str(arr.dtype)
+    else:
+        tr["res"] = [_val(op, x) for x in np.asarray(out, dtype=float).tolist()]
     return tr
 
 
